@@ -158,3 +158,683 @@ def run_script(script_lines, workdir, name, trace=None, timeout=600):
 
 def content_key(content):
     return json.dumps(content, sort_keys=True)
+
+
+# ---------------------------------------------------------------------------------------------
+# generated C++ libraries (real producer: `interrogate`)
+VDEFS = """#ifndef VDEFS_H
+#define VDEFS_H
+#ifdef CPPPARSER
+#define PUBLISHED __published
+#define BEGIN_PUBLISH __begin_publish
+#define END_PUBLISH __end_publish
+#define MAKE_PROPERTY(n, ...) __make_property(n, __VA_ARGS__)
+#define MAKE_SEQ(n, a, b) __make_seq(n, a, b)
+#else
+#undef PUBLISHED
+#undef BEGIN_PUBLISH
+#undef END_PUBLISH
+#undef MAKE_PROPERTY
+#undef MAKE_SEQ
+#define PUBLISHED public
+#define BEGIN_PUBLISH
+#define END_PUBLISH
+#define MAKE_PROPERTY(n, ...)
+#define MAKE_SEQ(n, a, b)
+#endif
+#endif
+"""
+
+
+def _hdr(name, body, includes=()):
+    g = name.upper() + "_H"
+    inc = "".join('#include "%s.h"\n' % i for i in includes)
+    return "#ifndef %s\n#define %s\n#include \"vdefs.h\"\n%s%s\n#endif\n" % (g, g, inc, body)
+
+
+def single_headers():
+    """~30 small self-contained headers: name -> text."""
+    H = {}
+    atoms = [("int", "float", "bool"), ("double", "unsigned int", "char"), ("long", "short", "unsigned char"),
+             ("long long", "unsigned short", "double")]
+    for k, (a, b, c) in enumerate(atoms):
+        H["cls%d" % k] = _hdr("cls%d" % k, """
+class Cls%(k)d {
+PUBLISHED:
+  Cls%(k)d();
+  Cls%(k)d(%(a)s x, %(b)s y = 2);
+  explicit Cls%(k)d(const Cls%(k)d *other, %(c)s flag);
+  %(a)s get_a() const;
+  void set_a(%(a)s v);
+  %(b)s combine(%(a)s x, %(b)s y, %(c)s z = 1) const;
+  %(b)s combine(%(a)s x) const;
+  static Cls%(k)d *make(%(a)s x);
+  static int count();
+  const Cls%(k)d &self() const;
+  Cls%(k)d copy() const;
+  void take(Cls%(k)d *p, const Cls%(k)d &r, Cls%(k)d v);
+public:
+  int hidden();
+};
+""" % dict(k=k, a=a, b=b, c=c))
+    H["inh0"] = _hdr("inh0", """
+class Animal {
+PUBLISHED:
+  Animal();
+  virtual ~Animal();
+  virtual int legs() const;
+  virtual const Animal *parent() const;
+  int age;
+};
+class Dog : public Animal {
+PUBLISHED:
+  Dog();
+  virtual int legs() const;
+  void bark(int times = 1);
+  Animal *as_animal();
+};
+class Puppy : public Dog {
+PUBLISHED:
+  Puppy(Dog *mother);
+  Dog *get_mother() const;
+  MAKE_PROPERTY(mother, get_mother);
+};
+""")
+    H["inh1"] = _hdr("inh1", """
+class Shape {
+PUBLISHED:
+  virtual ~Shape();
+  virtual double area() const = 0;
+  virtual Shape *clone() const = 0;
+  double scaled(double f) const;
+};
+class Circle : public Shape {
+PUBLISHED:
+  explicit Circle(double r);
+  virtual double area() const;
+  virtual Shape *clone() const;
+  double r;
+};
+class Square final : public Shape {
+PUBLISHED:
+  Square(double s = 1.0);
+  virtual double area() const;
+  virtual Shape *clone() const;
+};
+""")
+    H["minh0"] = _hdr("minh0", """
+class Left { PUBLISHED: Left(); int left() const; };
+class Right { PUBLISHED: Right(); int right() const; virtual ~Right(); };
+class Both : public Left, public Right {
+PUBLISHED:
+  Both();
+  int both() const;
+  Left *as_left();
+  Right *as_right();
+};
+""")
+    H["minh1"] = _hdr("minh1", """
+class Top { PUBLISHED: Top(); virtual ~Top(); int top() const; };
+class MidA : virtual public Top { PUBLISHED: MidA(); int a() const; };
+class MidB : virtual public Top { PUBLISHED: MidB(); int b() const; };
+class Bottom : public MidA, public MidB {
+PUBLISHED:
+  Bottom();
+  int bottom() const;
+};
+""")
+    H["nest0"] = _hdr("nest0", """
+class Outer {
+PUBLISHED:
+  Outer();
+  enum Kind { K_none, K_some = 3, K_all };
+  class Inner {
+  PUBLISHED:
+    Inner();
+    int value() const;
+    class Deep { PUBLISHED: Deep(); int d; };
+    Deep *deep();
+  };
+  typedef Inner InnerAlias;
+  Inner *inner();
+  Kind kind() const;
+  void set_kind(Kind k);
+  InnerAlias *alias();
+};
+""")
+    H["nest1"] = _hdr("nest1", """
+struct Parent {
+PUBLISHED:
+  struct InlineChild { PUBLISHED: int member; };
+  struct OutOfLineChild;
+  struct IncompleteChild;
+  enum class Tag { one = 1, two };
+  Tag tag;
+  InlineChild child;
+  OutOfLineChild *other();
+};
+struct Parent::OutOfLineChild { PUBLISHED: int member; Parent *up; };
+""")
+    H["enum0"] = _hdr("enum0", """
+enum Color { C_red, C_green = 5, C_blue };
+enum class Level : int { low = -1, mid, high = 10 };
+enum { anonymous_value = 7 };
+class UsesEnums {
+PUBLISHED:
+  UsesEnums();
+  Color get_color() const;
+  void set_color(Color c = C_green);
+  Level bump(Level l) const;
+  static bool is_high(Level l);
+};
+""")
+    H["enum1"] = _hdr("enum1", """
+namespace cfg {
+  enum Flags { F_a = 1, F_b = 2, F_c = 4, F_all = F_a | F_b | F_c };
+  class Options {
+  PUBLISHED:
+    Options(int flags = F_all);
+    enum Mode { M_read, M_write };
+    Mode mode;
+    bool has(Flags f) const;
+  };
+}
+""")
+    H["tdef0"] = _hdr("tdef0", """
+typedef int Handle;
+typedef unsigned long Size;
+class Item { PUBLISHED: Item(); Handle handle() const; };
+typedef Item *ItemPtr;
+typedef const Item *ConstItemPtr;
+typedef Item Thing;
+class Registry {
+PUBLISHED:
+  Registry();
+  ItemPtr find(Handle h) const;
+  ConstItemPtr peek(Size n) const;
+  Size size() const;
+  void add(Thing *t);
+};
+""")
+    H["tdef1"] = _hdr("tdef1", """
+template<class T> class Box {
+PUBLISHED:
+  Box();
+  T get() const;
+  void set(T v);
+};
+typedef Box<int> IntBox;
+typedef Box<double> DoubleBox;
+class BoxUser { PUBLISHED: BoxUser(); IntBox *ints(); void take(const DoubleBox &b); };
+""")
+    H["data0"] = _hdr("data0", """
+class Point {
+PUBLISHED:
+  Point();
+  int x;
+  int y;
+  float weight;
+  const int id;
+  static int instances;
+  unsigned char mask;
+};
+class Segment {
+PUBLISHED:
+  Segment();
+  Point a;
+  Point b;
+  Point *extra;
+  double length() const;
+  MAKE_PROPERTY(len, length);
+};
+""")
+    H["data1"] = _hdr("data1", """
+class Account {
+PUBLISHED:
+  Account();
+  int get_balance() const;
+  void set_balance(int b);
+  bool has_owner() const;
+  const char *get_owner() const;
+  void set_owner(const char *o);
+  void clear_owner();
+  MAKE_PROPERTY(balance, get_balance, set_balance);
+  MAKE_PROPERTY(readonly_balance, get_balance);
+  long long big;
+  bool open;
+};
+extern int global_counter;
+extern Account *default_account;
+""")
+    H["data2"] = _hdr("data2", """
+class Temp {
+PUBLISHED:
+  Temp();
+  double get_celsius() const;
+  void set_celsius(double c);
+  double get_kelvin() const;
+  MAKE_PROPERTY(celsius, get_celsius, set_celsius);
+  MAKE_PROPERTY(kelvin, get_kelvin);
+};
+class Sensor {
+PUBLISHED:
+  Sensor();
+  Temp current;
+  const Temp &get_min() const;
+  MAKE_PROPERTY(min, get_min);
+};
+""")
+    H["seq0"] = _hdr("seq0", """
+class Node {
+PUBLISHED:
+  Node();
+  int get_num_children() const;
+  Node *get_child(int n) const;
+  MAKE_SEQ(get_children, get_num_children, get_child);
+  int get_num_tags() const;
+  int get_tag(int n) const;
+  MAKE_SEQ(get_tags, get_num_tags, get_tag);
+};
+""")
+    H["ops0"] = _hdr("ops0", """
+class Num {
+PUBLISHED:
+  Num(int v = 0);
+  Num operator + (const Num &o) const;
+  Num operator - (const Num &o) const;
+  Num operator - () const;
+  Num &operator += (const Num &o);
+  bool operator == (const Num &o) const;
+  bool operator != (const Num &o) const;
+  bool operator < (const Num &o) const;
+  int operator [] (int i) const;
+  int operator () (int a, int b) const;
+  operator int () const;
+  operator bool () const;
+  Num &operator = (const Num &o);
+};
+""")
+    H["ops1"] = _hdr("ops1", """
+class Mat;
+class Vec2 {
+PUBLISHED:
+  Vec2(float x = 0, float y = 0);
+  Vec2 operator * (float s) const;
+  float operator * (const Vec2 &o) const;
+  Vec2 operator / (float s) const;
+  Vec2 &operator *= (float s);
+  float &operator [] (int i);
+  float operator [] (int i) const;
+  operator const float * () const;
+};
+""")
+    H["ns0"] = _hdr("ns0", """
+namespace geo {
+  class Pt { PUBLISHED: Pt(); int x() const; };
+  namespace detail {
+    class Impl { PUBLISHED: Impl(); Pt *origin(); };
+  }
+  BEGIN_PUBLISH
+  int distance(const Pt &a, const Pt &b);
+  END_PUBLISH
+}
+namespace util {
+  class Pt { PUBLISHED: Pt(); double y() const; };
+  using geo::detail::Impl;
+}
+""")
+    H["ns1"] = _hdr("ns1", """
+namespace a { namespace b { namespace c {
+  enum E { e0, e1 };
+  struct S { PUBLISHED: S(); E e; int f(E x = e1) const; };
+}}}
+namespace a { typedef b::c::S Short; class UsesShort { PUBLISHED: UsesShort(); Short *s(); }; }
+""")
+    H["glob0"] = _hdr("glob0", """
+#define VERSION_MAJOR 3
+#define VERSION_STRING "3.1"
+#define SCALE 2.5
+#define ENABLED
+class Ctx { PUBLISHED: Ctx(); };
+BEGIN_PUBLISH
+int add(int a, int b = 1);
+double add(double a, double b);
+Ctx *current(int idx);
+void reset();
+bool check(const Ctx *c, unsigned int flags = 0);
+extern int verbosity;
+extern const double pi_value;
+END_PUBLISH
+int not_published(int);
+""")
+    H["glob1"] = _hdr("glob1", """
+#define MAX_ITEMS 16
+#define MASK 0xff
+struct Rec { PUBLISHED: int a; short b; char c; };
+BEGIN_PUBLISH
+Rec make_rec(int a, short b, char c);
+int sum(const Rec &r);
+long long wide(long long v, unsigned long long u);
+float ratio(float a, float b = 2.0f);
+extern Rec shared_rec;
+END_PUBLISH
+""")
+    H["str0"] = _hdr("str0", """
+#include <string>
+class Named {
+PUBLISHED:
+  Named(const std::string &name);
+  std::string get_name() const;
+  void set_name(const std::string &n);
+  const std::string &ref() const;
+  MAKE_PROPERTY(name, get_name, set_name);
+  std::string label;
+};
+""")
+    H["abs0"] = _hdr("abs0", """
+class Iface {
+PUBLISHED:
+  virtual int run(int n) = 0;
+  virtual ~Iface();
+};
+class Impl1 : public Iface {
+PUBLISHED:
+  Impl1();
+  virtual int run(int n);
+};
+class Locked {
+PUBLISHED:
+  static Locked *get();
+  int v() const;
+protected:
+  Locked();
+  ~Locked();
+};
+class NoCopy {
+PUBLISHED:
+  NoCopy();
+  int v;
+private:
+  NoCopy(const NoCopy &);
+  void operator = (const NoCopy &);
+};
+""")
+    H["mix0"] = _hdr("mix0", """
+class Engine;
+class Part {
+PUBLISHED:
+  Part(Engine *e);
+  Engine *engine() const;
+  enum State { S_new, S_used };
+  State state;
+};
+class Engine {
+PUBLISHED:
+  Engine();
+  int get_num_parts() const;
+  Part *get_part(int i) const;
+  MAKE_SEQ(get_parts, get_num_parts, get_part);
+  Part *first() const;
+  MAKE_PROPERTY(first_part, first);
+  void attach(Part *p, Part::State s = Part::S_new);
+};
+""")
+    H["mix1"] = _hdr("mix1", """
+struct Color4 { PUBLISHED: Color4(float r = 0, float g = 0, float b = 0, float a = 1); float r, g, b, a; };
+class Material {
+PUBLISHED:
+  Material();
+  const Color4 &get_diffuse() const;
+  void set_diffuse(const Color4 &c);
+  bool has_diffuse() const;
+  void clear_diffuse();
+  MAKE_PROPERTY(diffuse, get_diffuse, set_diffuse);
+  Color4 ambient;
+  static const Material *get_default();
+  Material *copy() const;
+  bool operator == (const Material &o) const;
+};
+""")
+    H["ptr0"] = _hdr("ptr0", """
+class Buf {
+PUBLISHED:
+  Buf(int n);
+  int size() const;
+  const Buf *next() const;
+  Buf *next();
+  void link(Buf *n, const Buf *prev = 0);
+  int sum(const int *data, int n) const;
+  void fill(int *out, int n);
+  void swap(Buf &other);
+  double mean(const double *v, unsigned int n) const;
+};
+""")
+    H["over0"] = _hdr("over0", """
+class Over {
+PUBLISHED:
+  Over();
+  int f(int a);
+  int f(double a);
+  int f(int a, int b);
+  int f(const Over &o);
+  int f(const Over *o, int extra = 0);
+  int g(int a = 1, int b = 2, int c = 3);
+  static int h(bool b);
+  static int h(char c);
+  static int h(unsigned int u, long l = 0);
+};
+""")
+    H["stat0"] = _hdr("stat0", """
+class Counter {
+PUBLISHED:
+  static int get_count();
+  static void set_count(int c);
+  static Counter *global_ptr();
+  static int total;
+  static const int limit = 10;
+  Counter();
+  int inc(int by = 1);
+};
+""")
+    return H
+
+
+def library_sets():
+    """Sets of libraries whose headers include each other (through -I, so a type of another library is
+    referenced, not owned).  Each set: list of (library name, header name, header text)."""
+    S = {}
+    S["chain"] = [
+        ("liba", "sa", _hdr("sa", """
+class Base {
+PUBLISHED:
+  Base();
+  virtual ~Base();
+  int get_x() const;
+  void set_x(int x);
+  MAKE_PROPERTY(x, get_x, set_x);
+  enum Color { red, green = 5 };
+  class Inner { PUBLISHED: Inner(); int v; };
+  Inner *inner();
+  int get_num_items() const;
+  int get_item(int n) const;
+  MAKE_SEQ(get_items, get_num_items, get_item);
+};
+""")),
+        ("libb", "sb", _hdr("sb", """
+class Derived : public Base {
+PUBLISHED:
+  Derived();
+  Base *as_base();
+  Base::Color color() const;
+  int use(const Base &b, Base::Inner *i = 0);
+};
+class Holder { PUBLISHED: Holder(); Base *held; Derived d; };
+""", includes=["sa"])),
+        ("libc", "sc", _hdr("sc", """
+class MoreDerived : public Derived {
+PUBLISHED:
+  MoreDerived();
+  Derived *up();
+  Base *top();
+  void take(Holder *h, Base::Color c = Base::green);
+};
+""", includes=["sa", "sb"])),
+    ]
+    S["diamond"] = [
+        ("libtop", "dtop", _hdr("dtop", """
+class Top { PUBLISHED: Top(); virtual ~Top(); int top() const; };
+""")),
+        ("libmida", "dmida", _hdr("dmida", """
+class MidA : virtual public Top { PUBLISHED: MidA(); int a() const; Top *t(); };
+""", includes=["dtop"])),
+        ("libmidb", "dmidb", _hdr("dmidb", """
+class MidB : virtual public Top { PUBLISHED: MidB(); int b() const; const Top &ct() const; };
+""", includes=["dtop"])),
+        ("libbot", "dbot", _hdr("dbot", """
+class Bottom : public MidA, public MidB { PUBLISHED: Bottom(); int bottom() const; MidA *ma(); MidB *mb(); Top *tt(); };
+""", includes=["dtop", "dmida", "dmidb"])),
+    ]
+    S["nsenum"] = [
+        ("libmath", "nmath", _hdr("nmath", """
+enum Axis { AX_x, AX_y, AX_z };
+struct Vec {
+PUBLISHED:
+  Vec(float x = 0, float y = 0);
+  float x, y;
+  float dot(const Vec &o) const;
+  Vec operator + (const Vec &o) const;
+  float operator [] (int i) const;
+  operator bool () const;
+};
+typedef Vec Point;
+#define MATH_VERSION 2
+""")),
+        ("libphys", "nphys", _hdr("nphys", """
+class Body {
+PUBLISHED:
+  Body();
+  Vec get_pos() const;
+  void set_pos(const Vec &p);
+  MAKE_PROPERTY(pos, get_pos, set_pos);
+  Point *anchor();
+  float along(Axis a) const;
+  enum Kind { K_static, K_dynamic };
+  Kind kind;
+};
+#define PHYS_VERSION 3
+BEGIN_PUBLISH
+Body *nearest(const Vec &p);
+END_PUBLISH
+""", includes=["nmath"])),
+        ("libgame", "ngame", _hdr("ngame", """
+class Player : public Body {
+PUBLISHED:
+  Player();
+  Vec aim;
+  Body *target();
+  void face(Axis a = AX_z);
+  Body::Kind wanted() const;
+  int get_num_foes() const;
+  Body *get_foe(int n) const;
+  MAKE_SEQ(get_foes, get_num_foes, get_foe);
+};
+""", includes=["nmath", "nphys"])),
+    ]
+    S["pair"] = [
+        ("libone", "pone", _hdr("pone", """
+class One { PUBLISHED: One(); int v() const; operator int () const; bool operator == (const One &o) const; };
+typedef One *OnePtr;
+BEGIN_PUBLISH
+One *make_one(int v = 1);
+END_PUBLISH
+""")),
+        ("libtwo", "ptwo", _hdr("ptwo", """
+class Two { PUBLISHED: Two(One *o); OnePtr one() const; int sum(const One &a, const One &b) const; One first; };
+BEGIN_PUBLISH
+int total(const One *a, const Two *b);
+END_PUBLISH
+""", includes=["pone"])),
+    ]
+    # the same class owned (fully defined and exported) by two libraries: both name the shared header on
+    # their command line
+    shared = _hdr("xshared", """
+class Shared { PUBLISHED: Shared(); int id() const; void set_id(int i); MAKE_PROPERTY(id, id, set_id); enum Kind { k0, k1 }; };
+""")
+    S["conflict"] = [
+        ("libx1", "x1", _hdr("x1", """
+class UsesA { PUBLISHED: UsesA(); Shared *s(); Shared::Kind k; };
+""", includes=["xshared"]), {"xshared": shared}),
+        ("libx2", "x2", _hdr("x2", """
+class UsesB : public Shared { PUBLISHED: UsesB(); const Shared &cs() const; };
+""", includes=["xshared"]), {"xshared": shared}),
+        ("libx3", "x3", _hdr("x3", """
+class UsesC { PUBLISHED: UsesC(); int f(int a); };
+"""), {}),
+    ]
+    return S
+
+
+def interrogate(workdir, header, lib, outbase, backend="-python-native", opts=("-fnames",), incdirs=(), extra_headers=(),
+                trace=None, string=True, nodb=False):
+    """Run the built interrogate on <workdir>/<header>.h (+ extra headers named on the command line)."""
+    args = ["-DCPPPARSER", "-od", outbase + ".in", "-oc", outbase + ".cxx", "-module", "m", "-library", lib, backend]
+    args += list(opts)
+    if string:
+        args.append("-string")
+    if nodb:
+        args.append("-nodb")
+    args += ["-S" + os.path.join(REPO, "parser-inc")]
+    for d in incdirs:
+        args.append("-I" + d)
+    args += [h + ".h" for h in extra_headers] + [header + ".h"]
+    r = run.run_tool("interrogate", args, cwd=workdir, trace=trace, timeout=120, outputs=[outbase + ".in", outbase + ".cxx"])
+    return r, args
+
+
+# ---------------------------------------------------------------------------------------------
+def raw_to_model(raw):
+    """A raw-index dump of idbm_tool -> the database record format of specs/IdbDB.tla (as JSON)."""
+    def rec(k, conv):
+        return [{"i": x["i"], "r": conv(x)} for x in raw[k]]
+    return {
+        "w": rec("w", lambda x: dict(n=x["n"], un=x["un"], lib=x["lib"], fn=x["fn"], ret=x["ret"], rvd=x["rvd"], ps=x["ps"])),
+        "f": rec("f", lambda x: dict(sn=x["sn"], lib=x["lib"], gl=bool(x["fl"] & 1), method=bool(x["fl"] & 4), cls=x["cls"],
+                                     cw=x["cw"], pw=x["pw"])),
+        "t": rec("t", lambda x: dict(tn=x["tn"], n=x["n"], sn=x["sn"], lib=x["lib"], fd=bool(x["fd"]), gl=bool(x["gl"]),
+                                     outer=x["outer"], wrapped=x["wrapped"], ctors=x["ctors"], dtor=x["dtor"], elems=x["elems"],
+                                     methods=x["methods"], mseqs=x["mseqs"], casts=x["casts"],
+                                     derivs=[dict(base=d["base"], up=d["up"], down=d["down"]) for d in x["derivs"]],
+                                     nested=x["nested"])),
+        "m": rec("m", lambda x: dict(n=x["n"], lib=x["lib"], type=x["type"], getter=x["getter"])),
+        "e": rec("e", lambda x: dict(sn=x["sn"], n=x["n"], lib=x["lib"], gl=bool(x["gl"]), type=x["type"], getter=x["getter"],
+                                     setter=x["setter"], has=x["has"], clear=x["clear"], **{"del": x["del"]}, ins=x["ins"],
+                                     getkey=x["getkey"], len=x["len"])),
+        "s": rec("s", lambda x: dict(sn=x["sn"], n=x["n"], lib=x["lib"], lenf=x["lenf"], elemf=x["elemf"])),
+        "allT": raw["allT"], "globT": raw["globT"], "allF": raw["allF"], "globF": raw["globF"],
+        "globM": raw["globM"], "globE": raw["globE"], "next": raw["next"],
+    }
+
+
+def model_files(mdb):
+    """The maps of a database in model format = the `file` argument of ReadNewDB."""
+    return {k: mdb[k] for k in ("w", "f", "t", "m", "e", "s")}
+
+
+def eval_states(states, workdir, name, timeout=900):
+    """states: list of dicts for IdbState (id, first, single, db[, singles]).  Returns {id: verdict}."""
+    from .. import tlc
+    sp = os.path.join(workdir, name + ".states.ndjson")
+    vp = os.path.join(workdir, name + ".verdicts.ndjson")
+    with open(sp, "w") as f:
+        for s in states:
+            f.write(json.dumps(s) + "\n")
+    if os.path.exists(vp):
+        os.unlink(vp)
+    r = tlc.run("IdbState", "IdbState", workers=1, env={"VERIF_STATES": sp, "VERIF_DUMP": vp}, timeout=timeout)
+    tlc.must_ok(r, "IdbState")
+    out = {}
+    for v in tlc.read_dump(vp):
+        out[v["id"]] = v
+    if len(out) != len(states):
+        raise MachineryError("IdbState evaluated %d of %d databases" % (len(out), len(states)))
+    return out, r
